@@ -107,7 +107,11 @@ def mk(clsname, n, pg, embedded=False, twin=False, nstat=0, taps=()):
   else:
     a = getattr(arbiters, clsname)(n)
   a.elaborate()
-  a.apply(DefaultPassGroup() if pg == "default" else Mamba2020(print_line_trace=False))
+  if pg in ("default", "mamba"): a.apply(DefaultPassGroup() if pg == "default" else Mamba2020(print_line_trace=False))
+  else:
+    from pymtl3.passes.mamba.PassGroups import UnrollSim, HeuTopoUnrollSim
+    from pymtl3.passes.PassGroups import SimpleSimPass
+    a.apply({"unroll": UnrollSim, "heutopo": HeuTopoUnrollSim}[pg](print_line_trace=False) if pg != "simple" else SimpleSimPass())
   a.sim_reset()
   return a
 
@@ -207,7 +211,10 @@ def run_rand(sh):
   nstat = (n % 4 if n % 4 else 4) if emb else 0          # n = 2, 3, 4, 5 -> 2, 3, 4, 1 registers of the parent's own
   tk = sh.params.get("taps")
   taps = () if not tk else (n - 1,) if tk == "last" else tuple(range(n)) if tk == "all" else tuple(sorted(rng.sample(range(n), rng.randrange(1, n))))
-  a = mk(clsname, n, rng.choice(["default", "mamba"]), embedded=emb, twin=emb and n % 2 == 1, nstat=nstat, taps=taps)
+  # ( the embedded designs are cyclic at block granularity: only the pass groups that schedule cyclic groups build them )
+  pg = rng.choice(["default", "mamba"]) if emb else ["default", "mamba", "unroll", "heutopo", "simple"][sh.idx % 5]          # every pass group in every run
+  sh.count("random_stream_pass_group:" + pg)
+  a = mk(clsname, n, pg, embedded=emb, twin=emb and n % 2 == 1, nstat=nstat, taps=taps)
   exp_cnt = [0] * nstat
   tag = clsname + ("(embedded)" if emb else "")
   if emb: sh.count("embedded_arbiters")
